@@ -36,7 +36,19 @@ func WorkerMain(extra func() any) {
 				fmt.Fprintf(os.Stderr, "worker: bad job: %v\n", jerr)
 				os.Exit(3)
 			}
-			r := Run(&j)
+			var r *Result
+			if len(j.Raws) > 0 {
+				r = &Result{ID: j.ID, Outcome: Success}
+				var err error
+				r.SpecFiles, err = RunSpecFiles(&j, j.Raws)
+				if err != nil {
+					r.Outcome, r.Msg = "internal", err.Error()
+				}
+			} else if len(j.Steps) > 0 {
+				r = &Result{ID: j.ID, Outcome: Success, Hist: RunHistory(&j)}
+			} else {
+				r = Run(&j)
+			}
 			bs, _ := json.Marshal(r)
 			out.Write(bs)
 			out.WriteByte('\n')
